@@ -48,7 +48,8 @@ fn build(ix: &[usize]) -> Config {
     let mut c = Config::default();
     if set == 1 {
         c.sets.push(("th".into(), SetVal::Var(V::int(2))));
-        c.sets.push(("isa".into(), SetVal::Macro(p("(= .k \"a\")"))));
+        // the macro has the same name as the variable: the two name spaces are separate
+        c.sets.push(("th".into(), SetVal::Macro(p("(= .k \"a\")"))));
     }
     let rec = |f: &str| if split > 0 { format!("^.{f}") } else { format!(".{f}") };
     c.split = match split {
@@ -59,7 +60,7 @@ fn build(ix: &[usize]) -> Config {
     c.filter = match filter {
         0 => None,
         1 => Some(p(&format!("(!= {} 0)", rec("v")))),
-        _ => Some(if split > 0 { p("(| ^ @isa)") } else { p("@isa") }),
+        _ => Some(if split > 0 { p("(| ^ @th)") } else { p("@th") }),
     };
     c.selects = match select {
         0 => vec![],
